@@ -22,13 +22,53 @@ CERTS = ['trusted', 'selfsigned', 'wrongname', 'expired']
 RESP = b'HTTP/1.1 200 OK\r\nContent-Length: 17\r\nX-Origin: tls\r\n\r\norigin-says-hello'
 
 
-def tls_origin(d, name):
+BIG = bytes((i * 7 + i // 251) % 256 for i in range(40000))      # several TLS records
+RESPONSES = {
+    'small': RESP,
+    'chunked': b'HTTP/1.1 200 OK\r\nTransfer-Encoding: chunked\r\nX-Origin: tls\r\n\r\n5;x=y\r\nhello\r\nb\r\n tls world!\r\n0\r\nX-T: 1\r\n\r\n',
+    'big': b'HTTP/1.1 200 OK\r\nContent-Length: %d\r\nX-Origin: tls\r\n\r\n' % len(BIG) + BIG,
+}
+BODY = bytes(range(256)) + b'\r\n0\r\n\r\n-body-with-framing-lookalikes'
+VARIANTS = [('get', 'one', 'small'), ('post-cl', 'split', 'chunked'), ('post-chunked', 'one', 'big'), ('post-chunked-empty', 'split', 'small'),
+            ('post-cl', 'one', 'big'), ('get', 'split', 'chunked'), ('post-chunked', 'split', 'small')]
+
+
+def request_complete(got):
+    import re
+    head, sep, rest = got.partition(b'\r\n\r\n')
+    if not sep:
+        return False
+    if re.search(rb'(?im)^transfer-encoding:\s*chunked', head):
+        return rest.endswith(b'0\r\n\r\n')
+    m = re.search(rb'(?im)^content-length:\s*(\d+)', head)
+    return len(rest) >= (int(m.group(1)) if m else 0)
+
+
+def tls_origin(d, name, host='127.0.0.1'):
+    import re
     ctx = ssl.SSLContext(ssl.PROTOCOL_TLS_SERVER)
     ctx.load_cert_chain(os.path.join(d, name + '-cert.pem'), os.path.join(d, name + '-key.pem'))
+    answered = set()
 
     def beh(idx, got):
-        return RESP if b'\r\n\r\n' in got and got.count(b'\r\n\r\n') == 1 and got.endswith(b'\r\n\r\n') else None
-    return realnet.Origin(name.encode(), behaviour=beh, wrap=lambda c: ctx.wrap_socket(c, server_side=True))
+        if idx in answered or not request_complete(got):
+            return None
+        answered.add(idx)
+        m = re.search(rb'(?im)^x-resp:\s*(\w+)', got)
+        return RESPONSES.get(m.group(1).decode() if m else 'small', RESP)
+    return realnet.Origin(name.encode(), behaviour=beh, wrap=lambda c: ctx.wrap_socket(c, server_side=True), host=host)
+
+
+def build_request(kind, host, tag, resp_kind):
+    line = (b'GET' if kind == 'get' else b'POST') + b' /secret-%s HTTP/1.1\r\nHost: %s\r\nX-Token: %s\r\nX-Resp: %s\r\n' % (tag, host.encode(), tag, resp_kind.encode())
+    if kind == 'get':
+        return line + b'\r\n'
+    if kind == 'post-cl':
+        return line + b'Content-Length: %d\r\n\r\n' % len(BODY) + BODY
+    if kind == 'post-chunked-empty':
+        return line + b'Transfer-Encoding: chunked\r\n\r\n0\r\n\r\n'
+    a, b = BODY[:200], BODY[200:]
+    return line + b'Transfer-Encoding: chunked\r\n\r\n%x\r\n' % len(a) + a + b'\r\n%x;ext=1\r\n' % len(b) + b + b'\r\n0\r\n\r\n'
 
 
 def openssl_facts(d, der, host, hostkind, origin_cert_der):
@@ -38,7 +78,7 @@ def openssl_facts(d, der, host, hostkind, origin_cert_der):
     try:
         v = subprocess.run(['openssl', 'verify', '-CAfile', os.path.join(d, 'ca-cert.pem'), path], stdout=subprocess.PIPE, stderr=subprocess.STDOUT)
         chains = v.returncode == 0
-        flag = '-checkip' if hostkind == 'ipv4' else '-checkhost'
+        flag = '-checkip' if hostkind in ('ipv4', 'ipv6') else '-checkhost'
         n = subprocess.run(['openssl', 'x509', '-in', path, '-noout', flag, host], stdout=subprocess.PIPE, stderr=subprocess.STDOUT)
         names = b'does match' in n.stdout
     finally:
@@ -46,12 +86,14 @@ def openssl_facts(d, der, host, hostkind, origin_cert_der):
     return chains, names, der == origin_cert_der
 
 
-def conversation(pport, host, oport, tag):
-    req = b'GET /secret-%s HTTP/1.1\r\nHost: %s\r\nX-Token: %s\r\n\r\n' % (tag, host.encode(), tag)
+def conversation(pport, host, oport, tag, variant=('get', 'one', 'small')):
+    kind, seg, resp_kind = variant
+    req = build_request(kind, host, tag, resp_kind)
     out = {'tlsok': False, 'der': b'', 'cgot': b'', 'req': req, 'connect_status': b''}
     s = socket.create_connection(('127.0.0.1', pport), timeout=8)
     try:
-        s.sendall(b'CONNECT %s:%d HTTP/1.1\r\nHost: %s:%d\r\n\r\n' % (host.encode(), oport, host.encode(), oport))
+        auth = (b'[' + host.encode() + b']' if ':' in host else host.encode()) + b':%d' % oport
+        s.sendall(b'CONNECT %s HTTP/1.1\r\nHost: %s\r\n\r\n' % (auth, auth))
         head = b''
         s.settimeout(8)
         while b'\r\n\r\n' not in head:
@@ -66,13 +108,22 @@ def conversation(pport, host, oport, tag):
         ctx.check_hostname = False
         ctx.verify_mode = ssl.CERT_NONE
         try:
-            t = ctx.wrap_socket(s, server_hostname=host if not host[0].isdigit() else None)
+            t = ctx.wrap_socket(s, server_hostname=host if not (host[0].isdigit() or ':' in host) else None)
         except (ssl.SSLError, OSError):
             return out
         out['tlsok'] = True
         out['der'] = t.getpeercert(True) or b''
         try:
-            t.sendall(req)
+            if seg == 'one':
+                t.sendall(req)
+            else:       # several TLS records, the cuts inside the request line, inside the header terminator and inside the body
+                cuts = sorted({9, req.index(b'\r\n\r\n') + 2, min(len(req), req.index(b'\r\n\r\n') + 4 + 150)})
+                prev = 0
+                for c_ in cuts + [len(req)]:
+                    if c_ > prev:
+                        t.sendall(req[prev:c_])
+                        time.sleep(0.05)
+                        prev = c_
             got, _eof = realnet.read_quiet(t, quiet=0.5, first=4.0)
             out['cgot'] = got
         except (ssl.SSLError, OSError):
@@ -99,9 +150,10 @@ def run(chk):
     d = tlsfix.ensure()
     origins = {}
     for c in CERTS:
-        origins[(c, False)] = tls_origin(d, c)
-        origins[(c, True)] = tls_origin(d, c)
-    optports = ','.join(str(origins[(c, True)].port) for c in CERTS)
+        for fam, bind in (('v4', '127.0.0.1'), ('v6', '::1')):
+            origins[(c, False, fam)] = tls_origin(d, c, bind)
+            origins[(c, True, fam)] = tls_origin(d, c, bind)
+    optports = ','.join(str(o.port) for k, o in origins.items() if k[1])
     cases, descs = [], {}
     procs = []
     try:
@@ -114,27 +166,46 @@ def run(chk):
                 extra.append('--insecure-tls-interception')
             px = realnet.ProxyProc('local', extra=extra, env={'VERIF_OPTOUT_PORTS': optports})
             procs.append((px, tmp))
-            for hostkind, host in (('name', 'localhost'), ('ipv4', '127.0.0.1')):
+            # the first intercepted conversation per host meets a cold certificate cache (the leaf is generated); those run one
+            # after the other, everything after them concurrently (8 clients at a time) against a warm cache
+            jobs = []
+            for hostkind, host in (('name', 'localhost'), ('ipv4', '127.0.0.1'), ('ipv6', '::1')):
+                first = True
                 for c in CERTS:
                     for optout in (False, True):
-                        for round_ in ('cold', 'warm'):
-                            if quick and round_ == 'warm' and c in ('selfsigned', 'expired') and not insecure:
+                        for rep in (0, 1):
+                            if quick and rep == 1 and c in ('selfsigned', 'expired') and not insecure:
                                 continue
-                            o = origins[(c, optout)]
-                            n0 = len(o.transcript())
-                            tag = b'K%04d' % (len(cases) + 1)
-                            res = conversation(px.port, host, o.port, tag)
-                            time.sleep(0.05)
-                            new = o.transcript()[n0:]
-                            ogot = b''.join(x['got'] for x in new)
-                            origin_der = ssl.PEM_cert_to_DER_cert(open(os.path.join(d, c + '-cert.pem')).read())
-                            chains, names, isorigin = openssl_facts(d, res['der'], host, hostkind, origin_der) if res['der'] else (False, False, False)
-                            cid = len(cases) + 1
-                            cases.append({'id': cid, 'cert': c, 'insecure': insecure, 'optout': optout, 'hostkind': hostkind, 'tlsok': res['tlsok'],
-                                          'leafchains': chains, 'leafnames': names, 'isorigincert': isorigin, 'req': list(res['req']), 'resp': list(RESP),
-                                          'ogot': list(ogot), 'cgot': list(res['cgot'])})
-                            descs[cid] = {'origin_certificate': c, 'insecure': insecure, 'opt_out': optout, 'host': host, 'cache': round_,
-                                          'connect_status': res['connect_status'].decode('latin1')}
+                            intercepts = not optout and (insecure or c == 'trusted')
+                            cold = intercepts and first
+                            if intercepts:
+                                first = False
+                            jobs.append({'hostkind': hostkind, 'host': host, 'cert': c, 'optout': optout, 'cold': cold,
+                                         'tag': b'K%04d' % (len(cases) + len(jobs) + 1), 'variant': VARIANTS[(len(cases) + len(jobs)) % len(VARIANTS)]})
+
+            def one(j):
+                o = origins[(j['cert'], j['optout'], 'v6' if j['hostkind'] == 'ipv6' else 'v4')]
+                j['res'] = conversation(px.port, j['host'], o.port, j['tag'], j['variant'])
+            for j in [j for j in jobs if j['cold']]:
+                one(j)
+            import concurrent.futures
+            with concurrent.futures.ThreadPoolExecutor(8) as ex:
+                list(ex.map(one, [j for j in jobs if not j['cold']]))
+            time.sleep(0.3)
+            for j in jobs:
+                c, optout, hostkind, host, variant, res = j['cert'], j['optout'], j['hostkind'], j['host'], j['variant'], j['res']
+                o = origins[(c, optout, 'v6' if hostkind == 'ipv6' else 'v4')]
+                # what the origin received on the connection(s) that carried this conversation's tag (plaintext inside its TLS session)
+                ogot = b''.join(x['got'] for x in o.transcript() if b'X-Token: ' + j['tag'] + b'\r\n' in x['got'])
+                origin_der = ssl.PEM_cert_to_DER_cert(open(os.path.join(d, c + '-cert.pem')).read())
+                chains, names, isorigin = openssl_facts(d, res['der'], host, hostkind, origin_der) if res['der'] else (False, False, False)
+                cid = len(cases) + 1
+                cases.append({'id': cid, 'cert': c, 'insecure': insecure, 'optout': optout, 'hostkind': hostkind, 'tlsok': res['tlsok'],
+                              'leafchains': chains, 'leafnames': names, 'isorigincert': isorigin, 'req': list(res['req']), 'resp': list(RESPONSES[variant[2]]),
+                              'ogot': list(ogot), 'cgot': list(res['cgot'])})
+                descs[cid] = {'origin_certificate': c, 'insecure': insecure, 'opt_out': optout, 'host': host, 'cache': 'cold' if j['cold'] else 'warm',
+                              'request': variant[0], 'tls_records': variant[1], 'response': variant[2],
+                              'connect_status': res['connect_status'].decode('latin1')}
     finally:
         for px, tmp in procs:
             px.stop()
@@ -159,7 +230,8 @@ def run(chk):
     chk.assume('X.509 chain building, name matching and expiry are judged by OpenSSL (CPython ssl in the proxy and the origins, the openssl CLI for '
                'the presented leaf); the specification decides the protocol rule over those facts',
                'a Via field added inside the intercepted session is left unconstrained (the repository tests pin that none is added)',
-               'hosts: the name localhost and the IPv4 literal 127.0.0.1; IPv6 literals are not exercised')
+               'hosts: the name localhost, the IPv4 literal 127.0.0.1 and the IPv6 literal [::1]; payloads: GET, POST with Content-Length (binary body), chunked '
+               'and empty chunked requests, in one or several TLS records; small, chunked (extension, trailer) and 40 kB responses')
 
 
 if __name__ == '__main__':
